@@ -371,3 +371,33 @@ Qed.
 Theorem complete_acyclic : forall n dom,
   wf n = true -> acyclic n -> domains_ok n dom = true -> ~ has_crossing n -> flagged n dom = [].
 Proof. intros. apply accepted; auto. apply acyclic_justified; auto. Qed.
+
+(* ------------------------------------------------------------------ *)
+(* packaged statements                                                  *)
+
+Theorem cdc_sound_thm : forall n dom,
+  wf n = true -> domains_ok n dom = true -> flagged n dom = [] ->
+  (forall p s1 s2, influences n s1 p -> influences n s2 p -> same_dom (pin_source n) s1 s2)
+  /\ ~ has_crossing n.
+Proof.
+  intros n dom Hwf Hok Hfl. split.
+  - intros p s1 s2. apply (one_domain_per_signal n dom Hwf Hok Hfl).
+  - intros [v H]. exact (no_crossing n dom Hwf Hok Hfl v H).
+Qed.
+
+Theorem cdc_sound_nodes_thm : forall n dom,
+  wf n = true -> domains_ok n dom = true -> flagged n dom = [] ->
+  (forall v nd c i q s,
+      get_node n v = Some nd -> uses_base_check (nkind nd) = true -> own_clock nd = Some c ->
+      nth_error (nins nd) i = Some (Some q) -> influences n s q ->
+      same_dom (pin_source n) s (SrcClk c))
+  /\ (forall v nd q s,
+      get_node n v = Some nd -> nkind nd = KCdc ->
+      nth_error (nins nd) 0 = Some (Some q) -> influences n s q ->
+      exists d ic, s = SrcClk d /\ nth_error (nclocks nd) 0 = Some (Some ic)
+                   /\ pin_source n d = pin_source n ic).
+Proof.
+  intros n dom Hwf Hok Hfl. split.
+  - apply (clocked_node_own_domain n dom Hwf Hok Hfl).
+  - apply (marker_input_own_domain n dom Hwf Hok Hfl).
+Qed.
